@@ -76,6 +76,8 @@ fn oracle_rng(bytes: &[u8], salt: u64) -> Rng {
 }
 
 const METHODS: [&str; 4] = ["b", "c", "a", "r"];
+/// encoder only: S / T = `ZeroCopySink::append_borrow` / `append_copy` through `dyn ZeroCopySink`
+const ENC_METHODS: [&str; 6] = ["b", "c", "a", "r", "S", "T"];
 
 /// Real decoder on `wire`: one `decode` call (`plan = None`) or a random
 /// segmentation with mixed methods and interleaved drains.
@@ -273,7 +275,7 @@ impl Exec for EncExec {
             }
             ["enc", m, hex] => {
                 let Some(bytes) = from_hex(hex) else { return StepOut::bad() };
-                if !METHODS.contains(m) {
+                if !ENC_METHODS.contains(m) {
                     return StepOut::bad();
                 }
                 let Some(run) = self.run.as_mut() else { return StepOut::bad() };
